@@ -305,8 +305,8 @@ struct _sndr<Predecessor, Successor>::type {
     , returnAddress_(returnAddress) {}
 
   friend constexpr blocking_kind tag_invoke(tag_t<blocking>, const type& self) {
-    blocking_kind pred = blocking(self.predecessor_);
-    blocking_kind succ = blocking(self.successor_);
+    blocking_kind pred = unifex::blocking(self.predecessor_);
+    blocking_kind succ = unifex::blocking(self.successor_);
 
     // TODO: we only need the min(, maybe) if pred can throw or cancel
     return std::max(pred(), std::min(succ(), blocking_kind::maybe()));
